@@ -97,8 +97,11 @@ def carrier_monos(ctx, cname, p):
     pa = ("attr", p)
     if cname in ("KdqTreeStreaming", "KdqTreeBatch"):
         tr = ctx.trace(cname, "_get_critical_kld")
-        m = Pol.mono(tr.retval, pa, Pol.Env())
+        env = Pol.Env({pa: 1})  # documented: alpha is a significance level in (0, 1)
+        m = Pol.mono(tr.retval, pa, env)
         monos[(("attr", "_critical_dist"), pa)] = m
+        if env.wraps:
+            monos["__wraps__"] = list(env.wraps)
     return monos
 
 
@@ -296,6 +299,7 @@ def _neg_of_conj(cond, dp):
 
 def polarity_ob(ctx, site, kind, p, L_, g, s_, want, pa, env, carriers, site_ev, cname):
     env.blocked = []
+    env.wraps = []
     ga = g.single_atom()
     if ga is not None and ga[0] in ("and", "or"):
         # a positive boolean combination is monotone iff its members are: judge them one by one
@@ -308,6 +312,12 @@ def polarity_ob(ctx, site, kind, p, L_, g, s_, want, pa, env, carriers, site_ev,
     what = "%s guard is %s in %s (%s)" % (kind, "non-increasing" if want < 0 else "non-decreasing", p, L_)
     if m == want:
         ctx.ob("POL", site, what, True, "monotone as documented; guard %s" % q.short(g, 160), site_ev)
+        return
+    if m is None and (getattr(env, "wraps", None) or env.monos.get("__wraps__")):
+        w = (env.wraps or env.monos.get("__wraps__"))[0]
+        ctx.ob("POL", site, what, False,
+               "the bound is an order statistic %s whose index can be 0 as well as negative: sequence[-0] is the FIRST (smallest) element while -1 is the last, "
+               "so for small %s the bound jumps to the other end of the sorted values and the guard is not monotone" % (q.short(T.atom(w), 120), p), site_ev)
         return
     if m is None:
         # which unknown sign blocked the verdict?  A statistic of the detector whose sign the stores do not
